@@ -71,14 +71,14 @@ use lalrpop_util::{ErrorRecovery, ParseError};
 use std::cell::{Cell, RefCell};
 
 #[derive(Clone, Debug)]
-pub enum Tk { K0(usize), K1(usize), K2(usize), K3(usize), K4(usize), K5(usize), K6(usize), K7(usize), Unknown(usize) }
+pub enum Tk { K0(usize), K1(usize), K2(usize), K3(usize), K4(usize), K5(usize), K6(usize), K7(usize), K8(usize), K9(usize), K10(usize), K11(usize), Unknown(usize) }
 impl Tk {
     fn id(&self) -> usize {
-        match self { Tk::K0(i) | Tk::K1(i) | Tk::K2(i) | Tk::K3(i) | Tk::K4(i) | Tk::K5(i) | Tk::K6(i) | Tk::K7(i) | Tk::Unknown(i) => *i }
+        match self { Tk::K0(i) | Tk::K1(i) | Tk::K2(i) | Tk::K3(i) | Tk::K4(i) | Tk::K5(i) | Tk::K6(i) | Tk::K7(i) | Tk::K8(i) | Tk::K9(i) | Tk::K10(i) | Tk::K11(i) | Tk::Unknown(i) => *i }
     }
     fn make(kind: Option<usize>, id: usize) -> Tk {
         match kind { Some(0) => Tk::K0(id), Some(1) => Tk::K1(id), Some(2) => Tk::K2(id), Some(3) => Tk::K3(id),
-            Some(4) => Tk::K4(id), Some(5) => Tk::K5(id), Some(6) => Tk::K6(id), Some(7) => Tk::K7(id), _ => Tk::Unknown(id) }
+            Some(4) => Tk::K4(id), Some(5) => Tk::K5(id), Some(6) => Tk::K6(id), Some(7) => Tk::K7(id), Some(8) => Tk::K8(id), Some(9) => Tk::K9(id), Some(10) => Tk::K10(id), Some(11) => Tk::K11(id), _ => Tk::Unknown(id) }
     }
 }
 pub struct Ctx { pub acts: Cell<usize>, pub fail_at: Option<usize>, pub log: RefCell<Vec<usize>> }
@@ -165,7 +165,7 @@ fn main() {
         attempts += 1;
         let allow_bang = r.chance(1, 4);
         let cfg = if bang_always { gen_cfg_recovery(&mut r) } else { gen_cfg_indexed(&mut r, attempts - 1, allow_bang || attempts <= n_templates()) };
-        if cfg.nterm > 8 {
+        if cfg.nterm > 12 {
             continue;
         }
         // first pass with placeholder indices to learn lalrpop's production numbering
